@@ -10,6 +10,7 @@ void sched_begin(uint64_t seed, int strategy, int param);
 int sched_end(void);
 void sched_set_budget(uint64_t steps);                 // progress budget per session (0 = none)
 void sched_set_spurious(int permille);                 // spurious condition-variable wake-ups
+void sched_set_timeouts(int permille);                 // timed waits time out at arbitrary scheduling points (virtual time)
 void sched_replay(const uint8_t * seq, size_t n);      // force this schedule in the next session
 const uint8_t * sched_log(size_t * n);                 // schedule of the last/current session (chosen thread ids)
 uint64_t sched_steps(void);
